@@ -36,6 +36,28 @@ theorem request_fields (H : Hash) (cfg : Cfg) (peer : Nat) (d : Bytes) (key : Ke
   obtain ⟨s, hs, _, _, hp, _⟩ := (classify_handle_iff' H cfg peer d key p).mp h
   exact ⟨s, hs, hp, (parse_secret hp).1⟩
 
+/-- The key under which a request is in flight names its source address: requests of different peers
+    never share a key, whatever their identifiers (two clients behind one host differ in their port,
+    hence in their source address, hence here). -/
+theorem key_names_the_peer (H : Hash) (cfg : Cfg) (peer : Nat) (d : Bytes) (key : Key) (p : Packet)
+    (h : classify H cfg peer d = .handle key p) : key = (peer, p.id) := by
+  unfold classify at h
+  split at h <;> try cases h
+  split at h
+  · cases h
+  · split at h
+    · cases h
+    · split at h
+      · cases h; rfl
+      · cases h
+
+theorem different_peers_different_keys (H : Hash) (cfg : Cfg) (peer peer' : Nat) (d d' : Bytes)
+    (key key' : Key) (p p' : Packet) (hne : peer ≠ peer')
+    (h : classify H cfg peer d = .handle key p) (h' : classify H cfg peer' d' = .handle key' p') :
+    key ≠ key' := by
+  rw [key_names_the_peer H cfg peer d key p h, key_names_the_peer H cfg peer' d' key' p' h']
+  intro e; exact hne (congrArg Prod.fst e)
+
 /-- The handler is invoked for a datagram goroutine iff its datagram passed the pipeline and its
     key is not in flight on that Serve call; every other datagram is dropped without the handler. -/
 theorem handler_iff (H : Hash) (cfg : Cfg) (s : St) (t i : Nat) (fate : Fate)
